@@ -191,6 +191,30 @@ def array_equal_allclose(np, d):
     return bool(np.array_equal(A, B)), bool(np.array_equal(A, C)), bool(np.allclose(A, C)), bool(np.allclose(A, A + 1.0)), bool(np.isclose(1.0, 1.0 + 1e-13))
 
 
+@case
+def fill_diagonal_and_out(np, d):
+    A = np.zeros((3, 3))
+    np.fill_diagonal(A, 1e-6)
+    v = np.array(d["v3"])
+    w = np.array(d["v3"])
+    np.negative(w[1:], out=w[1:])
+    np.add(v, v, out=v)
+    q = np.array(d["v7"])
+    return A, w, v, q[[6, 3, 4, 5]], A[1], bool(np.array(d["v3"]).any()), bool(np.zeros(2).any()), bool(np.array(d["v3"]).all())
+
+
+@case
+def readonly_arrays(np, d):
+    a = np.array(d["v3"])
+    a.setflags(write=False)
+    try:
+        a[0] = 1.0
+        raised = False
+    except ValueError:
+        raised = True
+    return raised, a, a * 2.0, bool(a.flags.writeable)
+
+
 class _Sub:
     pass
 
